@@ -1,6 +1,6 @@
 CHECK = {
     "level": "exploration",
-    "assumptions": ["root namespace only; entity aliases and bound CIDRs are not generated",
+    "assumptions": ["root namespace only; bound CIDRs are not generated",
                     "mount maximum TTL of the token and credential mounts is tuned to 4h; system maximum is the default 32 days"],
     "units": [
         unit("create", "vault", ["vault/c07_test.go"], "^TestVerif_C07_",
